@@ -240,4 +240,15 @@ theorem compound_aabb_contains_parts (hsq : LawfulSqrt sq) (rmax hm : K) (parts 
   have h1 := hsub _ (shape_aabb_contains sq hsq hm ms.1 hu ms.2 l hok hl p hp)
   exact ⟨h1, aabb_transformBy_contains sq box pos _ hpos h1⟩
 
+/-- **composite `compute_swept_aabb(start, end)`** (`local_aabb().transform_by(start).merged(local_aabb().transform_by(end))`):
+whenever the local box contains a set `S`, the swept box contains `S` at both poses. -/
+theorem composite_swept_contains (S : V3 K → Prop) (box : Aabb3 K) (m1 m2 : Iso3 K)
+    (hq1 : m1.qi * m1.qi + m1.qj * m1.qj + m1.qk * m1.qk + m1.qw * m1.qw = 1)
+    (hq2 : m2.qi * m2.qi + m2.qj * m2.qj + m2.qk * m2.qk + m2.qw * m2.qw = 1) (h : ∀ p, S p → BMem box p) :
+    letI := fieldNum K sq
+    ∀ p, S p → BMem ((box.transformBy m1).merged (box.transformBy m2)) (m1.act p) ∧
+      BMem ((box.transformBy m1).merged (box.transformBy m2)) (m2.act p) :=
+  fun p hp => ⟨aabb_merged_contains sq _ _ _ (Or.inl (aabb_transformBy_contains sq box m1 p hq1 (h p hp))),
+    aabb_merged_contains sq _ _ _ (Or.inr (aabb_transformBy_contains sq box m2 p hq2 (h p hp)))⟩
+
 end C09
